@@ -30,20 +30,39 @@ _ARMED = [False]
 def _alarm(signum, frame):
     # (repeating timer: at the recursion limit, or inside a sys.monitoring callback, the exception raised here can be
     # lost - the next tick tries again; ticks that arrive after the case was closed are ignored)
+    if os.environ.get("VF_DEBUG_ALARM"):
+        os.write(2, b"tick armed=%d\n" % _ARMED[0])
     if _ARMED[0]:
+        try:
+            mon.COUNTERS.pause()  # (the next tick, 0.25 s later, then lands in ordinary code)
+        except Exception:
+            pass
         raise CaseTimeout()
 
 
 CASE_TIMEOUT = float(os.environ.get("VERIF_CASE_TIMEOUT", "60"))
 
 
+def _hard_deadline(seconds):
+    """a deadline that needs no Python frame: at the recursion limit the interpreter cannot even enter a Python-level signal
+    handler (the call itself raises RecursionError, which the storm swallows), so a case that recurses forever is ended by
+    faulthandler's C-level watchdog thread - the process exits and the runner uses the last checkpoint"""
+    try:
+        import faulthandler
+        faulthandler.cancel_dump_traceback_later()
+        if seconds:
+            faulthandler.dump_traceback_later(seconds, exit=True)
+    except Exception:
+        pass
+
+
 _CKPT = {"out": None, "t0": 0.0, "last": 0.0}
 
 
 def _checkpoint(prop, ctx):
-    """every 10 s, before a case starts: what has been observed so far goes to <out>.part (used if the shard is killed)"""
+    """every 3 s, before a case starts: what has been observed so far goes to <out>.part (used if the shard is killed)"""
     now = time.time()
-    if _CKPT["out"] and now - _CKPT["last"] > 10:
+    if _CKPT["out"] and now - _CKPT["last"] > 3:
         _CKPT["last"] = now
         try:
             res = result(ctx, prop, _CKPT["t0"])
@@ -69,6 +88,7 @@ def exec_case(prop, case, ctx, objmode=None):
     # (repeating: an exception raised by the handler while a sys.monitoring callback is running can be lost, the next
     # tick lands in ordinary code)
     _checkpoint(prop, ctx)
+    _hard_deadline(getattr(prop, "CASE_TIMEOUT", CASE_TIMEOUT) * 1.5)
     _ARMED[0] = True
     signal.setitimer(signal.ITIMER_REAL, getattr(prop, "CASE_TIMEOUT", CASE_TIMEOUT), 0.25)
     try:
@@ -88,6 +108,11 @@ def exec_case(prop, case, ctx, objmode=None):
     finally:
         _ARMED[0] = False
         signal.setitimer(signal.ITIMER_REAL, 0)
+        _hard_deadline(0)
+        try:
+            mon.COUNTERS.resume()
+        except Exception:
+            pass
         # contract failures and protected writes that a property did not collect itself
         for name, detail in mon.CONTRACTS.take():
             ctx.violate(f"{prop.ID}/contract:{name}", detail)
@@ -134,7 +159,26 @@ def main(argv=None):
     # a lived-in process: something else has used the library before the cases do (vf/prelude.py)
     if os.environ.get("VF_NO_PRELUDE") != "1":
         from . import prelude
-        ctx.count("prelude-steps-completed", prelude.run())
+        # (the prelude runs library code too: on a changed tree it may hang, so it gets the same alarm as a case)
+        _ARMED[0] = True
+        signal.setitimer(signal.ITIMER_REAL, 20, 0.25)
+        _hard_deadline(45)
+        try:
+            try:
+                ctx.count("prelude-steps-completed", prelude.run())
+            finally:
+                _ARMED[0] = False
+        except CaseTimeout:
+            _ARMED[0] = False
+            ctx.count("prelude-timed-out")
+        finally:
+            _ARMED[0] = False
+            signal.setitimer(signal.ITIMER_REAL, 0)
+            _hard_deadline(0)
+            try:
+                mon.COUNTERS.resume()
+            except Exception:
+                pass
         mon.CONTRACTS.take()
         mon.CONTRACTS.take_errors()
         mon.TRACER.clear()
